@@ -26,3 +26,34 @@ Definition header_guards (c : wchart) : bool :=
   && no_dup_by text_eqb (map fst (w_misc c))
   && forallb (fun kv => text_end_ok (snd kv) && forallb (fun ch => negb (is_lower ch)) (fst kv)) (w_samples c)
   && no_dup_by text_eqb (map fst (w_samples c)).
+
+(* C04, runner only: wf_bms_lines with ONE clause weakened -- the id part (last two characters) of a '#WAVxx' / '#BPMxx'
+   key may hold lower-case letters (ids are exact byte strings: '0a' and '0A' are different ids; header NAMES stay upper
+   case).  Texts in this domain but outside wf_bms_lines are outside the domain of the C04 theorems (text_dom asks for
+   upper-case keys); they are judged per run by correspondence with the model and by the oracle c04_specb. *)
+Definition key_name_part (k : text) : text :=
+  if (length k =? 5)%nat && (starts_with S_WAV k || starts_with S_BPM k) then firstn 3 k else k.
+Definition wf_bms_lines_ids (lay : slayout) (lines : list text) : bool :=
+  let hs := headers_of lines in
+  let objs := flat_map objs_of_line lines in
+  forallb (fun l => text_eqb (strip l) l && line_kind_ok l) lines
+  && no_dup_by text_eqb (map fst hs)
+  && forallb (fun kv => is_ascii_text (fst kv) && negb (text_eqb (strip (snd kv)) []) && text_eqb (strip (snd kv)) (snd kv)
+                         && forallb (fun c => negb (is_lower c)) (key_name_part (fst kv))) hs
+  && forallb (fun l => match data_line l with
+                       | Some (_, ch, data) => negb (text_eqb ch CH_TIME_SIG) && (length data <=? 384)%nat
+                       | None => true end) lines
+  && forallb (fun kv => if starts_with S_WAV (fst kv) || (starts_with S_BPM (fst kv) && negb (text_eqb (fst kv) S_BPM))
+                        then (length (fst kv) =? 5)%nat && is_b36_pair (skipn 3 (fst kv)) else true) hs
+  && match hlookup S_LNOBJ hs with Some v => is_b36_pair v && negb (text_eqb v ID_NONE) | None => true end
+  && match bms_denote lay lines with
+     | None => false
+     | Some d =>
+         Qlt_bool 0 (d_bpm0 d) && forallb (fun tb => Qlt_bool 0 (snd tb)) (d_tempo d)
+         && match hlookup S_BPM hs with Some v => match parse_decimal v with Some q => Qlt_bool 0 q | None => false end | None => false end
+     end
+  && no_dup_by same_pos (filter (fun o => is_tempo_chan (o_chan o)) objs)
+  && no_dup_by (fun a b => same_pos a b
+                           && match lane_of lay (o_chan a), lane_of lay (o_chan b) with
+                              | Some x, Some y => x =? y | _, _ => false end)
+               (filter (fun o => match lane_of lay (o_chan o) with Some _ => true | None => false end) objs).
